@@ -2,6 +2,9 @@ import RxProofs.Lemmas.WinCount
 import RxProofs.Lemmas.WinEnd
 import RxProofs.Lemmas.WinChain
 import RxProofs.Lemmas.WinBufView
+import RxProofs.Lemmas.WinClosed
+import RxProofs.Lemmas.WinBufRun
+import RxProofs.Lemmas.WinTimeK
 /-!
 # C18 — windows and buffers partition the source correctly
 
@@ -238,6 +241,66 @@ theorem windows_end_with_source_time_or_count (span count : Nat) (s : Toc α) (t
     (∀ id ∈ [s.s], id < s.b.wins.length → s.b.endedOf id = none → s'.b.endedOf id = some e) ∧ s'.b.outerStopped = true :=
   Toc.ends span count s t _ e rfl hl
 
+/-! ### closed windows have ended; hence after the source's terminal EVERY window has ended
+
+`closed_windows_ended_*`: in every state of every run, each window ever created is in the operator's open set or has
+already ended.  `all_windows_end_with_source_*`: in every reachable state in which the operator listens to the
+source, the step of a source terminal leaves no window un-ended (count: `wwc_ends_with_source`). -/
+
+theorem closed_windows_ended_boundaries (t0 : Nat) (evs : List (Nat × Ev α)) :
+    let s := Bnd.run (Bnd.init t0) evs
+    ∀ id, id < s.b.wins.length → id ∈ [s.cur] ∨ (s.b.endedOf id).isSome = true := by
+  intro s; show ClosedB s.b [s.cur]
+  simp only [s]; rw [Bnd.run_eq_fold]
+  exact (fold_inv Bnd.mach Bnd.KInv (fun s t e h => Bnd.kinv_step s t e h) evs _ (Bnd.kinv_init t0)).2
+
+theorem closed_windows_ended_when (raiseAt : Option Nat) (pool t0 : Nat) (evs : List (Nat × Ev α)) :
+    let s := Whn.run raiseAt pool (Whn.init raiseAt pool t0) evs
+    ∀ id, id < s.b.wins.length → id ∈ [s.cur] ∨ (s.b.endedOf id).isSome = true := by
+  intro s; show ClosedB s.b [s.cur]
+  simp only [s]; rw [Whn.run_eq_fold]
+  exact (fold_inv (Whn.mach raiseAt pool) Whn.KInv (fun s t e h => Whn.kinv_step raiseAt pool s t e h) evs _
+    (Whn.kinv_init raiseAt pool t0)).2
+
+theorem closed_windows_ended_time (span shift t0 : Nat) (evs : List (Nat × Ev α)) :
+    let s := (Tim.mach shift).fold (Tim.init span shift t0) evs
+    ∀ id, id < s.b.wins.length → id ∈ s.queue ∨ (s.b.endedOf id).isSome = true :=
+  (fold_inv (Tim.mach shift) Tim.KInv (fun s t e h => Tim.kinv_step shift s t e h) evs _ (Tim.kinv_init span shift t0)).2
+
+theorem closed_windows_ended_time_or_count (span count t0 : Nat) (evs : List (Nat × Ev α)) :
+    let s := (Toc.mach span count).fold (Toc.init span t0) evs
+    ∀ id, id < s.b.wins.length → id ∈ [s.s] ∨ (s.b.endedOf id).isSome = true :=
+  (fold_inv (Toc.mach span count) Toc.KInv (fun s t e h => Toc.kinv_step span count s t e h) evs _ (Toc.kinv_init span t0)).2
+
+theorem all_windows_end_with_source_boundaries (t0 : Nat) (evs : List (Nat × Ev α)) (t k : Nat) (hk : k = 0 ∨ k = 1)
+    (e : Option Err) (hl : (Bnd.run (Bnd.init t0) evs).b.live.contains k = true) :
+    let s' := Bnd.mach.step (Bnd.run (Bnd.init t0) evs) t (.src k (endNotif e))
+    ∀ id, id < s'.b.wins.length → (s'.b.endedOf id).isSome = true := by
+  rw [Bnd.run_eq_fold] at hl ⊢
+  exact Bnd.all_ended _ t k hk e hl (fold_inv Bnd.mach Bnd.KInv (fun s t e h => Bnd.kinv_step s t e h) evs _ (Bnd.kinv_init t0))
+
+theorem all_windows_end_with_source_when (raiseAt : Option Nat) (pool t0 : Nat) (evs : List (Nat × Ev α)) (t : Nat)
+    (e : Option Err) (hl : (Whn.run raiseAt pool (Whn.init raiseAt pool t0) evs).b.live.contains 0 = true) :
+    let s' := (Whn.mach raiseAt pool).step (Whn.run raiseAt pool (Whn.init raiseAt pool t0) evs) t (.src 0 (endNotif e))
+    ∀ id, id < s'.b.wins.length → (s'.b.endedOf id).isSome = true := by
+  rw [Whn.run_eq_fold] at hl ⊢
+  exact Whn.all_ended raiseAt pool _ t e hl (fold_inv (Whn.mach raiseAt pool) Whn.KInv
+    (fun s t e h => Whn.kinv_step raiseAt pool s t e h) evs _ (Whn.kinv_init raiseAt pool t0))
+
+theorem all_windows_end_with_source_time (span shift t0 : Nat) (evs : List (Nat × Ev α)) (t : Nat) (e : Option Err)
+    (hl : ((Tim.mach shift).fold (Tim.init span shift t0) evs).b.live.contains 0 = true) :
+    let s' := (Tim.mach shift).step ((Tim.mach shift).fold (Tim.init span shift t0) evs) t (.src 0 (endNotif e))
+    ∀ id, id < s'.b.wins.length → (s'.b.endedOf id).isSome = true :=
+  Tim.all_ended shift _ t e hl (fold_inv (Tim.mach shift) Tim.KInv (fun s t e h => Tim.kinv_step shift s t e h) evs _
+    (Tim.kinv_init span shift t0))
+
+theorem all_windows_end_with_source_time_or_count (span count t0 : Nat) (evs : List (Nat × Ev α)) (t : Nat) (e : Option Err)
+    (hl : ((Toc.mach span count).fold (Toc.init span t0) evs).b.live.contains 0 = true) :
+    let s' := (Toc.mach span count).step ((Toc.mach span count).fold (Toc.init span t0) evs) t (.src 0 (endNotif e))
+    ∀ id, id < s'.b.wins.length → (s'.b.endedOf id).isSome = true :=
+  Toc.all_ended span count _ t e hl (fold_inv (Toc.mach span count) Toc.KInv (fun s t e h => Toc.kinv_step span count s t e h)
+    evs _ (Toc.kinv_init span t0))
+
 /-- **toggle_windows_end_partial.** `window_toggle_` (= `group_join_`): the full statement (as above, for every
 terminal `e`) is FALSE of the code as written — see `toggle_completion_counter`.  Proved part: the source FAILS. The
 excluded shape is exactly "toggle window open when the source COMPLETES" (known finding
@@ -314,6 +377,54 @@ theorem buffer_eq_window_time_or_count (span count t0 horizon fuel : Nat) (evs :
   rw [Mach.run_eq_fold]
   exact (J_fold (Toc.mach span count) (·.b) (fun s t e h => Toc.J_step span count s t e h) _ _ (Toc.J_init span t0)).items
 
+/-! ### buffer_x = window_x ∘ flat_map(to_list), at model level
+
+`buffer_run_is_view_*`: what the buffer subscriber sees (`Mach.bufLog`, the thing the driver compares with the real
+`buffer_*` operators) is exactly the `flat_map(to_list)` view (`viewOf`) of the log of a run of the SAME window machine
+— the run `runBuf` performs: the input events, plus a `dispose` fed at the moment the view delivers a terminal
+downstream (the downstream `AutoDetachObserver` disposing the chain).  `buffer_count_filter`: the view used for
+`buffer_with_count` (`nonEmpty = true`) is the plain view followed by `filter(len > 0)`.  Together with
+`buffer_eq_window_*` only the library's own composition `source.pipe(window_x, flat_map(to_list)[, filter])` is left
+to the correspondence. -/
+
+theorem buffer_count_filter (l : List (Nat × Out α)) :
+    (viewOf true l).out = (viewOf false l).out.filter notEmptyBuf := view_filter l
+
+theorem buffer_run_is_view_count (count skip horizon fuel t0 : Nat) (evs : List (Nat × Ev α)) :
+    (Cnt.mach count skip).bufLog true horizon fuel t0 (Cnt.init t0) evs =
+      (viewOf true ((Cnt.mach count skip).runBuf true horizon fuel
+        ((Cnt.mach count skip).bufAfter true 0 t0 (Cnt.init t0) {}) evs).1.b.log).out :=
+  Mach.bufLog_is_view (Cnt.mach count skip) (fun s t e => Cnt.Pre_step count skip s t e (Pre.refl s.b)) _ _ _ _ _ _
+
+theorem buffer_run_is_view_boundaries (horizon fuel t0 : Nat) (evs : List (Nat × Ev α)) :
+    Bnd.mach.bufLog false horizon fuel t0 (Bnd.init t0) evs =
+      (viewOf false (Bnd.mach.runBuf false horizon fuel (Bnd.mach.bufAfter false 0 t0 (Bnd.init t0) {}) evs).1.b.log).out :=
+  Mach.bufLog_is_view Bnd.mach (fun s t e => Bnd.Pre_step s t e (Pre.refl s.b)) _ _ _ _ _ _
+
+theorem buffer_run_is_view_when (raiseAt : Option Nat) (pool horizon fuel t0 : Nat) (evs : List (Nat × Ev α)) :
+    (Whn.mach raiseAt pool).bufLog false horizon fuel t0 (Whn.init raiseAt pool t0) evs =
+      (viewOf false ((Whn.mach raiseAt pool).runBuf false horizon fuel
+        ((Whn.mach raiseAt pool).bufAfter false 0 t0 (Whn.init raiseAt pool t0) {}) evs).1.b.log).out :=
+  Mach.bufLog_is_view (Whn.mach raiseAt pool) (fun s t e => Whn.Pre_step raiseAt pool s t e (Pre.refl s.b)) _ _ _ _ _ _
+
+theorem buffer_run_is_view_toggle (raiseAt : Option Nat) (pool horizon fuel t0 : Nat) (evs : List (Nat × Ev α)) :
+    (Tgl.mach raiseAt pool).bufLog false horizon fuel t0 (Tgl.init t0) evs =
+      (viewOf false ((Tgl.mach raiseAt pool).runBuf false horizon fuel
+        ((Tgl.mach raiseAt pool).bufAfter false 0 t0 (Tgl.init t0) {}) evs).1.b.log).out :=
+  Mach.bufLog_is_view (Tgl.mach raiseAt pool) (fun s t e => Tgl.Pre_step raiseAt pool s t e (Pre.refl s.b)) _ _ _ _ _ _
+
+theorem buffer_run_is_view_time (span shift horizon fuel t0 : Nat) (evs : List (Nat × Ev α)) :
+    (Tim.mach shift).bufLog false horizon fuel t0 (Tim.init span shift t0) evs =
+      (viewOf false ((Tim.mach shift).runBuf false horizon fuel
+        ((Tim.mach shift).bufAfter false 0 t0 (Tim.init span shift t0) {}) evs).1.b.log).out :=
+  Mach.bufLog_is_view (Tim.mach shift) (fun s t e => Tim.Pre_step shift s t e (Pre.refl s.b)) _ _ _ _ _ _
+
+theorem buffer_run_is_view_time_or_count (span count horizon fuel t0 : Nat) (evs : List (Nat × Ev α)) :
+    (Toc.mach span count).bufLog false horizon fuel t0 (Toc.init span t0) evs =
+      (viewOf false ((Toc.mach span count).runBuf false horizon fuel
+        ((Toc.mach span count).bufAfter false 0 t0 (Toc.init span t0) {}) evs).1.b.log).out :=
+  Mach.bufLog_is_view (Toc.mach span count) (fun s t e => Toc.Pre_step span count s t e (Pre.refl s.b)) _ _ _ _ _ _
+
 /-! non-vacuity: a completed count window whose subscriber was attached; the view emits its contents -/
 example : (((Cnt.mach 2 2).bufLog true 3000 100 200 (Cnt.init 200)
     [(210, .src 0 (.next 1)), (220, .src 0 (.next 2)), (230, .src 0 (.next (3 : Nat))), (240, .src 0 .completed)]).filterMap
@@ -335,7 +446,33 @@ theorem timer_chain (span shift n : Nat) :
   · rw [Chain.shift_ticks, arithFrom_getElem? _ _ _ _ hj, Nat.succ_mul]; congr 1; simp; omega
   · rw [Chain.span_ticks, arithFrom_getElem? _ _ _ _ hj]; congr 1; simp; omega
 
+/-- **wwt_window_k** (closed form of time windows). `window_with_time(span, shift)`, `shift ≥ 1`, subscribed at `t0`
+to a hot source delivering the time-sorted elements `tx` (all after `t0`), nothing else yet.  `L` is the schedule
+the machine follows (`Mach.run = fold` over it, `Mach.run_eq_fold`): the elements it gets to are a prefix of `tx`
+(all of `tx` when the fuel suffices — fuel is a driver artefact), and every window `k` that exists holds exactly the
+processed elements that arrived in `(t0 + k·shift, t0 + k·shift + span]` — the tie rule the code implements with
+a hot source: an element arriving exactly when a window opens is not in it, one arriving exactly when it closes is. -/
+theorem wwt_window_k (span shift t0 horizon fuel : Nat) (hs : 0 < shift) (tx : List (Nat × α))
+    (hsorted : tx.Pairwise (fun p q => p.1 ≤ q.1)) (hpos : ∀ p ∈ tx, t0 < p.1) (k : Nat) :
+    let L := (Tim.mach shift).sched horizon fuel (Tim.init span shift t0) (Cnt.nexts tx)
+    let s := (Tim.mach shift).run horizon fuel (Tim.init span shift t0) (Cnt.nexts tx)
+    (∃ rest, tx = elemsOf L ++ rest) ∧
+    (k < s.b.wins.length → s.b.pushedOf k = ((elemsOf L).filter (inWin span shift t0 k)).map (·.2)) := by
+  intro L s
+  obtain ⟨hfair, rest, hpre⟩ := Mach.sched_fair (Tim.mach shift) horizon fuel (Tim.init span shift t0) tx hsorted
+  refine ⟨⟨rest, hpre⟩, fun hk => ?_⟩
+  obtain ⟨a', b', ρ', hinv⟩ := Tim.tinv_fair (span := span) (t0 := t0) hs L (Tim.init span shift t0) [] 0 0 0
+    (Tim.tinv_init span shift t0) hfair
+    (fun p hp => ⟨by have := hpos p (by rw [hpre]; exact List.mem_append_left _ hp); omega,
+                  hpos p (by rw [hpre]; exact List.mem_append_left _ hp)⟩)
+  have hs_eq : s = (Tim.mach shift).fold (Tim.init span shift t0) L := Mach.run_eq_fold _ _ _ _ _
+  rw [hs_eq] at hk ⊢
+  rw [hinv.len] at hk
+  simpa using hinv.pushed k (by omega)
+
 /-! non-vacuity -/
+example : (((Tim.mach 50).run 3000 100 (Tim.init 30 50 200)
+    (Cnt.nexts [(210, 'a'), (230, 'b'), (250, 'c'), (260, 'd')])).b.wins.map (·.pushed) |>.take 2) = [['a', 'b'], ['d']] := by decide
 example : Chain.ticks 50 4 ⟨50, 30, 0⟩ = [⟨30, false, true⟩, ⟨50, true, false⟩, ⟨80, false, true⟩, ⟨100, true, false⟩] := by decide
 example : Chain.ticks 20 4 ⟨20, 50, 0⟩ = [⟨20, true, false⟩, ⟨40, true, false⟩, ⟨50, false, true⟩, ⟨60, true, false⟩] := by decide
 example : Chain.ticks 10 2 ⟨10, 10, 0⟩ = [⟨10, true, true⟩, ⟨20, true, true⟩] := by decide
